@@ -15,7 +15,7 @@ for res in sorted(glob.glob("/tmp/seedout/*/m*/result.json")):
     out = os.path.join("/verif/seeded", name)
     os.makedirs(out, exist_ok=True)
     for f in os.listdir(d):
-        if f in ("result.json", "result.err", "result.first.json"):
+        if f in ("result.json", "result.err", "result.first.json") or f.startswith("extra-") or f.startswith("result") or f == ".claim":
             continue
         shutil.copyfile(os.path.join(d, f), os.path.join(out, f))
     meta = json.load(open(os.path.join(d, "meta.json")))
@@ -25,7 +25,14 @@ for res in sorted(glob.glob("/tmp/seedout/*/m*/result.json")):
         "existing_tests": r.get("existing_tests"),
     }
     meta["checks"] = {p: {"exit": c["rc"], "violations": c["violations"], "wall_s": c["wall_s"], "replays": c.get("replays", [])[:2]} for p, c in r.get("checks", {}).items()}
-    meta["caught"] = r.get("caught")
+    for ex in sorted(glob.glob(os.path.join(d, "extra-*.json"))):
+        try:
+            er = json.load(open(ex))
+        except Exception:
+            continue
+        for p_, c in er.get("checks", {}).items():
+            meta["checks"][p_] = {"exit": c["rc"], "violations": c["violations"], "wall_s": c["wall_s"], "replays": c.get("replays", [])[:2], "cross_property": True}
+    meta["caught"] = any(c["exit"] == 1 and c["violations"] for c in meta["checks"].values())
     meta.setdefault("evaluated_at_repo_commit", base)
     json.dump(meta, open(os.path.join(out, "meta.json"), "w"), indent=1)
     print(name, "caught" if r.get("caught") else "MISSED")
